@@ -256,6 +256,12 @@ def run(prog, rep, tier, snap):
     rep.rule("R01.4", "single expansion path", 9)
     r01_4(prog, rep)
     from . import c16
+    from ..rules import bitint
+    rep.rule("R01.5", "the parser admits every value RFC 5545 allows for a rule part", 7)
+    bitint.r01_5(prog, rep)
+    from . import c08
+    rep.rule("R08.5", "every month wrap carries the year; modular month reductions are bracketed (shared with C08)", 12)
+    c08.r08_5(prog, rep)
     rep.rule("R16.2", "UNTIL / DTSTART guards dominate every commit (shared with C16)", 20)
     c16.r16_2(prog, rep)
     rep.rule("R16.3", "COUNT accounting (shared with C16)", 9)
